@@ -786,7 +786,7 @@ func (u *Unit) execSimple(st *State, in ssa.Instruction) {
 		// ignored: named locals are tracked through Alloc comments
 	case *ssa.Alloc:
 		et := x.Type().(*types.Pointer).Elem()
-		if at, ok := et.Underlying().(*types.Array); ok && (x.Comment == "varargs" || x.Comment == "slicelit" || x.Comment == "complit" || x.Comment == "") && at.Len() <= 16 {
+		if at, ok := et.Underlying().(*types.Array); ok && (x.Comment == "varargs" || x.Comment == "slicelit" || x.Comment == "complit" || x.Comment == "" || x.Comment == "makeslice") && at.Len() <= 16 {
 			lit := &ArrLit{elems: make([]Value, at.Len()), etyp: at.Elem()}
 			fr.regs[x] = &Ptr{kind: pArrLit, lit: lit, litIdx: -1, rtyp: et, typ: et}
 			return
@@ -1236,6 +1236,23 @@ func (u *Unit) sliceOp(st *State, x *ssa.Slice) Value {
 	if p, ok := base.(*Ptr); ok && p.kind == pArrLit && x.Low == nil && x.High == nil {
 		return &SliceLit{p.lit}
 	}
+	if p, ok := base.(*Ptr); ok && p.kind == pArrLit && x.Low == nil && x.High != nil {
+		if h, ok := constInt(x.High); ok && int(h) <= len(p.lit.elems) {
+			if int(h) == len(p.lit.elems) {
+				return &SliceLit{p.lit}
+			}
+			// a shorter prefix of a fresh array literal (make([]T, n) with constant n):
+			// materialise with the full capacity
+			es := u.sortOf(p.lit.etyp)
+			arr := u.newRef(st, "arr.make")
+			hn, hs := elemHeapName(es)
+			hp := u.heapGet(st.view(), hn, hs)
+			_, inner := arrParts(hs)
+			u.heapSet(st, hn, Store(hp, arr, T{fmt.Sprintf("((as const %s) %s)", inner, u.zero(p.lit.etyp).S), inner}))
+			st.private = append(st.private, privRef{arr, "arr:" + string(es)})
+			return app(SSlice, "mk_slice", arr, IntLit(0), IntLit(h), IntLit(int64(len(p.lit.elems))))
+		}
+	}
 	if _, ok := x.X.Type().Underlying().(*types.Slice); ok && !isByteSlice(x.X.Type()) {
 		sl := u.lower(st, base, x.X.Type())
 		lo := IntLit(0)
@@ -1250,7 +1267,17 @@ func (u *Unit) sliceOp(st *State, x *ssa.Slice) Value {
 			u.unsupportedf("3-index slice")
 		}
 		u.addOblig(st, "nopanic.slice", "", nil, And(Le(IntLit(0), lo), Le(lo, hi), Le(hi, app(SInt, "scap", sl))), x, "implicit: slice bounds in range")
-		return app(SSlice, "mk_slice", app(SInt, "sarr", sl), Add(app(SInt, "soff", sl), lo), Sub(hi, lo), Sub(app(SInt, "scap", sl), lo))
+		sub := u.bind(st, app(SSlice, "mk_slice", app(SInt, "sarr", sl), Add(app(SInt, "soff", sl), lo), Sub(hi, lo), Sub(app(SInt, "scap", sl), lo)), "sub")
+		// sub-slice law (heap-independent): sub[i] is base[i+lo]
+		es := u.sortOf(x.X.Type().Underlying().(*types.Slice).Elem())
+		_, hs := elemHeapName(es)
+		eq := T{"e!q", hs}
+		iq := T{"i!q", SInt}
+		st.assume(T{fmt.Sprintf("(forall ((e!q %s) (i!q Int)) (! (= %s %s) :pattern (%s)))", hs, u.selem(eq, sub, iq).S, u.selem(eq, sl, Add(iq, lo)).S, u.selem(eq, sub, iq).S), SBool})
+		if tag, ok := u.eng.prov[sliceRoot(sl.S)]; ok {
+			u.eng.prov[sub.S] = tag
+		}
+		return sub
 	}
 	u.unsupportedf("slice of %s", x.X.Type())
 	return u.fresh("slice", u.sortOf(x.Type()))
